@@ -2,6 +2,7 @@ package main
 
 import (
 	"fmt"
+	"os"
 	"go/token"
 	"go/types"
 	"sort"
@@ -80,7 +81,20 @@ func (fr *Frame) call(instr ssa.Instruction, c *ssa.CallCommon, st *State) *Val 
 	}
 	if c.IsInvoke() {
 		recv := fr.val(c.Value)
-		return fr.invoke(c, recv, args, st, pos, resTy)
+		base := st.now
+		res := fr.invoke(c, recv, args, st, pos, resTy)
+		all := len(u.eng.frameSet) > 0
+		impls := u.eng.implementations(c.Value.Type(), c.Method)
+		for _, impl := range impls {
+			if !u.eng.inFrameSet(impl.fn) {
+				all = false
+				if os.Getenv("GOVC_DEBUG") != "" && len(u.eng.frameSet) > 0 {
+					fmt.Fprintln(os.Stderr, "impl not in frame set:", fnKey(impl.fn), "for", c.Method.Name())
+				}
+			}
+		}
+		fr.assumeFreshErr(st, base, res, resTy, args, all && len(impls) > 0)
+		return res
 	}
 	if callee := c.StaticCallee(); callee != nil {
 		var binds []*Val
@@ -89,7 +103,10 @@ func (fr *Frame) call(instr ssa.Instruction, c *ssa.CallCommon, st *State) *Val 
 				binds = append(binds, fr.val(b))
 			}
 		}
-		return fr.staticCall(callee, binds, args, st, pos, resTy)
+		base := st.now
+		res := fr.staticCall(callee, binds, args, st, pos, resTy)
+		fr.assumeFreshErr(st, base, res, resTy, args, u.eng.inFrameSet(callee))
+		return res
 	}
 	// dynamic call of a function value
 	fv := fr.val(c.Value)
@@ -154,8 +171,13 @@ func (fr *Frame) staticCall(callee *ssa.Function, binds []*Val, args []*Val, st 
 		u.usedStd[extName(callee)] = true
 		return m(fr, st, callee, args, pos, resTy)
 	}
-	// 2. contract
-	if ct := eng.contractFor(callee); ct != nil && !eng.forceInline[key] {
+	// 2. contract (in frame mode a callee whose contract lists assigned locations is inlined instead when
+	// possible, so that conditional writes such as lazily filled caches are judged under their real guard)
+	frameInline := false
+	if ct := eng.contractFor(callee); ct != nil && u.frameMode && len(ct.Assigns) > 0 && len(callee.Blocks) > 0 && !fr.onStack(callee) && instrCount(callee) <= maxInlineInstrs && fr.depth < maxInlineDepth {
+		frameInline = true
+	}
+	if ct := eng.contractFor(callee); ct != nil && !eng.forceInline[key] && !frameInline {
 		return fr.applyContract(ct, callee, nil, args, st, pos, resTy, key)
 	}
 	// 3. inline
@@ -163,6 +185,12 @@ func (fr *Frame) staticCall(callee *ssa.Function, binds []*Val, args []*Val, st 
 		return fr.inline(callee, binds, args, st, pos)
 	}
 	// 4. havoc
+	if u.checkFrame && eng.frameSet[key] {
+		// frame checked by the callee's own unit in this run: allocation only
+		u.note("uncontracted call (results unconstrained; frame checked in the callee's own unit): " + key)
+		fr.bumpNow(st)
+		return fr.havocResults(st, resTy, callee.Name())
+	}
 	return fr.havocCall(callee, args, st, pos, resTy)
 }
 
@@ -354,6 +382,18 @@ func (fr *Frame) invoke(c *ssa.CallCommon, recv *Val, args []*Val, st *State, po
 		res = fr.applyContract(ct, nil, recv, args, st, pos, resTy, ct.Key)
 	} else {
 		ms := eng.invokeModset(u, c)
+		if u.checkFrame && len(eng.frameSet) > 0 {
+			all := true
+			impls := eng.implementations(c.Value.Type(), c.Method)
+			for _, impl := range impls {
+				if !eng.inFrameSet(impl.fn) {
+					all = false
+				}
+			}
+			if all && len(impls) > 0 {
+				ms = &modset{keys: map[string]bool{}, ghosts: ms.ghosts}
+			}
+		}
 		if len(ms.keys) > 0 || len(ms.ghosts) > 0 {
 			u.note("uncontracted interface call (modset of all implementations havocked): " + iname)
 		} else {
@@ -467,7 +507,9 @@ func (fr *Frame) builtin(b *ssa.Builtin, c *ssa.CallCommon, st *State, pos token
 		mt := c.Args[0].Type().Underlying().(*types.Map)
 		k := fr.asTerm(arg(1), st)
 		// delete on nil map is a no-op
-		fr.frameCheckRef(st, m.T, "map", pos)
+		if u.checkFrame {
+			u.oblige(fr, st, "frame", "delete", or(fmt.Sprintf("(= %s nil)", m.T), fmt.Sprintf("(>= (birth %s) %s)", m.T, u.entryNow)), pos, "delete from a map that existed before the call")
+		}
 		alive := st.clone()
 		u.mapDelete(alive, mt, m.T, k)
 		nilc := fmt.Sprintf("(= %s nil)", m.T)
@@ -530,7 +572,7 @@ func (fr *Frame) frameCheckRef(st *State, ref string, what string, pos token.Pos
 	if fr.knownNonNil(ref) && strings.HasPrefix(ref, "|alloc:") {
 		return
 	}
-	goal := fmt.Sprintf("(>= (birth %s) %s)", ref, u.entryNow)
+	goal := or(fmt.Sprintf("(= %s nil)", ref), fmt.Sprintf("(>= (birth %s) %s)", ref, u.entryNow))
 	if u.assignable != nil {
 		goal = or(goal, u.assignable(ref, what))
 	}
